@@ -602,6 +602,23 @@ def module_env(prog: Any, module: Any, base: dict[str, Any], interp_kwargs: dict
     env = dict(base)
     kw = dict(interp_kwargs or {})
     for st in module.tree.body:
+        if isinstance(st, ast.ClassDef) and st.name not in env and any(unparse(b).split(".")[-1] == "NamedTuple" for b in st.bases):
+            # a NamedTuple of the module is what it declares: its fields in order (defaults evaluated when constant)
+            import collections
+            flds = [x.target.id for x in st.body if isinstance(x, ast.AnnAssign) and isinstance(x.target, ast.Name)]
+            dfl = []
+            for x in st.body:
+                if isinstance(x, ast.AnnAssign) and isinstance(x.target, ast.Name) and x.value is not None:
+                    try:
+                        dfl.append(const_eval(prog, module, x.value))
+                    except Exception:
+                        dfl = None
+                        break
+            try:
+                env[st.name] = collections.namedtuple(st.name, flds, defaults=dfl or None)
+                continue
+            except Exception:
+                pass
         if isinstance(st, ast.ClassDef) and st.name not in env:
             env[st.name] = type(st.name, (Recorded,), {})      # constructor calls are recorded (issue / error / value objects)
         elif isinstance(st, ast.Import):
